@@ -724,10 +724,10 @@ void *qlist_toarray(qlist_t *list, size_t *size) {
         memcpy(dp, obj->data, obj->size);
         dp += obj->size;
     }
-    qlist_unlock(list);
-
     if (size != NULL)
         *size = list->datasum;
+    qlist_unlock(list);
+
     return chunk;
 }
 
